@@ -126,7 +126,10 @@ func checkWasmState(r *evid.Run, pool *wproto.Pool, d *DocState, concs []*tok.Co
 				r.Mismatch("wasm-"+m.name+":decision-differs", fmt.Sprintf("doc=%q default=%s(%v) tinywasm=%s(%s)", doc, def.Class(), def.Err, w.Class, w.Err), rp)
 				continue
 			}
-			if hasRootLine(d.Doc) {
+			// (a dry run also validates the names: a well-formed document with a name that is no path element is rejected
+			// by design, by both builds alike - checked above - so the specification's verdict says nothing there)
+			dryHostile := strings.Contains(m.name, "dry-run") && docHasPathSpecialName(d)
+			if hasRootLine(d.Doc) && !dryHostile {
 				if d.Verdict == "accept" && w.Class != "ok" {
 					r.Mismatch("wasm-"+m.name+":wellformed-rejected", fmt.Sprintf("doc=%q err=%s", doc, w.Err), rp)
 					continue
@@ -156,6 +159,33 @@ func checkWasmState(r *evid.Run, pool *wproto.Pool, d *DocState, concs []*tok.Co
 	}
 }
 
+// docHasPathSpecialName: some name of the forest contains '/' or is '.' or '..'
+func docHasPathSpecialName(d *DocState) bool {
+	var rec func(t *Tree) bool
+	rec = func(t *Tree) bool {
+		if len(t.Name) == 1 && t.Name[0] == "DOT" || len(t.Name) == 2 && t.Name[0] == "DOT" && t.Name[1] == "DOT" {
+			return true
+		}
+		for _, x := range t.Name {
+			if x == "SL" {
+				return true
+			}
+		}
+		for _, k := range t.Kids {
+			if rec(k) {
+				return true
+			}
+		}
+		return false
+	}
+	for _, t := range d.Forest {
+		if rec(t) {
+			return true
+		}
+	}
+	return false
+}
+
 func checkC17(r *evid.Run) {
 	bin := buildWasmDriver(r)
 	if bin == "" {
@@ -182,6 +212,8 @@ func checkC17(r *evid.Run) {
 	for _, m := range []modelRun{
 		{Module: "MC_C01", Cfg: "MC_C01_" + tier + ".cfg", Timeout: 20 * time.Minute},
 		{Module: "MC_C02", Cfg: "MC_C02_" + tier + ".cfg", Timeout: 25 * time.Minute},
+		// names that are paths or path-special ('a/b' beside a{b}, '.', '..'): what one build merges or rejects, the other must
+		{Module: "MC_C01", Cfg: "MC_C17_paths.cfg", Timeout: 20 * time.Minute},
 	} {
 		runDocModel(r, m, func(d *DocState) {
 			if len(d.Doc) >= 2 {
